@@ -371,18 +371,29 @@ namespace
         // noise floor of this solve: the same solver on a right-hand side perturbed by a few ulps per entry. A long or
         // non-converging Krylov iteration amplifies rounding differences (which a decomposition necessarily introduces in
         // every reduction and interface sum) by many orders of magnitude; the comparison tolerances below scale with it.
-        GlobalSystemVector rhs2 = vec_rhs.clone(LAFEM::CloneMode::Deep);
-        GlobalSystemVector sol2 = vec_sol.clone(LAFEM::CloneMode::Deep);
-        sol2.format();
-        the_system_level.filter_sys.filter_sol(sol2);
-        for(Index d = 0; d < nd; ++d) { const double sgn = (((unsigned long long)(out.keys[d] * 2654435761ll + 4242) >> 7) & 1ull) ? 1.0 : -1.0; rhs2.local()(d, rhs2.local()(d) * (1.0 + sgn * 8.9e-16)); }
-        Solver::solve(*solver, sol2, rhs2, the_system_level.matrix_sys, the_system_level.filter_sys);
-        for(Index d = 0; d < nd; ++d) out.noise_sol = std::max(out.noise_sol, std::abs(sol2.local()(d) - vec_sol.local()(d)));
-        out.noise_def = std::abs(double(solver->get_def_final()) - out.def_final);
-        out.noise_iters = std::labs(long(solver->get_num_iter()) - long(out.iters));
-        double e0 = 0, e1 = 0, f0 = 0, f1 = 0;
-        error_norms(vec_sol, e0, e1); error_norms(sol2, f0, f1);
-        out.noise_h0 = std::abs(e0 - f0); out.noise_h1 = std::abs(e1 - f1);
+        // three samples (different sign patterns and sizes of the perturbation); the largest movement counts
+        double e0 = 0, e1 = 0;
+        error_norms(vec_sol, e0, e1);
+        for(int sample = 0; sample < 3; ++sample)
+        {
+          GlobalSystemVector rhs2 = vec_rhs.clone(LAFEM::CloneMode::Deep);
+          GlobalSystemVector sol2 = vec_sol.clone(LAFEM::CloneMode::Deep);
+          sol2.format();
+          the_system_level.filter_sys.filter_sol(sol2);
+          const double eps = (sample == 1 ? 4.4e-16 : 8.9e-16);
+          for(Index d = 0; d < nd; ++d)
+          {
+            const double sgn = (((unsigned long long)(out.keys[d] * 2654435761ll + 4242 + 977 * sample) >> (7 + sample)) & 1ull) ? 1.0 : -1.0;
+            rhs2.local()(d, rhs2.local()(d) * (1.0 + sgn * eps));
+          }
+          Solver::solve(*solver, sol2, rhs2, the_system_level.matrix_sys, the_system_level.filter_sys);
+          for(Index d = 0; d < nd; ++d) out.noise_sol = std::max(out.noise_sol, std::abs(sol2.local()(d) - vec_sol.local()(d)));
+          out.noise_def = std::max(out.noise_def, std::abs(double(solver->get_def_final()) - out.def_final));
+          out.noise_iters = std::max(out.noise_iters, std::labs(long(solver->get_num_iter()) - long(out.iters)));
+          double f0 = 0, f1 = 0;
+          error_norms(sol2, f0, f1);
+          out.noise_h0 = std::max(out.noise_h0, std::abs(e0 - f0)); out.noise_h1 = std::max(out.noise_h1, std::abs(e1 - f1));
+        }
       }
       solver->done();
       multigrid_hierarchy->done();
@@ -503,7 +514,15 @@ namespace
       }
       if(seen.size() != B.keys.size()) sim::fail("DOF_COVER", "the patches hold " + std::to_string(seen.size()) + " of " + std::to_string(B.keys.size()) + " global DOFs");
       CNT.iters += A[0].iters;
-      if(A[0].status != B.status) sim::fail("SOLVER_STATUS", "solver status " + std::to_string(A[0].status) + " differs from the one-process status " + std::to_string(B.status));
+      // the stopping test is a threshold: a run that converges in its last permitted iteration in one world may need one more
+      // in the other (success vs max_iter); every other disagreement of the status is a violation
+      {
+        const long tol_it = 1 + 2 * B.noise_iters;
+        const bool boundary = ((A[0].status == int(Solver::Status::success) && B.status == int(Solver::Status::max_iter)) || (A[0].status == int(Solver::Status::max_iter) && B.status == int(Solver::Status::success)))
+          && std::labs(long(A[0].iters) - long(B.iters)) <= tol_it;
+        if(A[0].status != B.status && !boundary) sim::fail("SOLVER_STATUS", "solver status " + std::to_string(A[0].status) + " (" + std::to_string(A[0].iters) + " iterations) differs from the one-process status " + std::to_string(B.status) + " (" + std::to_string(B.iters) + " iterations)");
+        if(A[0].status != B.status) sim::probe("converged_in_the_last_permitted_iteration_in_one_world_only");
+      }
       if(!close(A[0].def_init, B.def_init, 1e-10, B.def_init)) sim::fail("DEFECT_INIT", "initial defect differs from the one-process run: " + std::to_string(A[0].def_init) + " vs " + std::to_string(B.def_init));
       long di = long(A[0].iters) - long(B.iters);
       const long di_tol = 1 + 2 * B.noise_iters;
